@@ -102,6 +102,10 @@ def run(ck: vlib.Check):
         variants = {}
         brack = Path(td) / "site-packages[py3]"
         shutil.copytree(vlib.SRC / "richchk", brack / "richchk", ignore=shutil.ignore_patterns("__pycache__", "logs"))
+        # (the library creates richchk/util/logs on its first import with a check-then-mkdir; the entry modules below are
+        # imported by parallel fresh interpreters, so the directory is made beforehand - two FIRST imports racing each other
+        # is not what this property is about, see DESIGN 10.9)
+        (brack / "richchk" / "util" / "logs").mkdir(parents=True, exist_ok=True)
         variants["a directory with glob characters"] = brack
         bare = Path(td) / "sourceless"
         shutil.copytree(vlib.SRC / "richchk", bare / "richchk", ignore=shutil.ignore_patterns("__pycache__", "logs"))
@@ -109,6 +113,7 @@ def run(ck: vlib.Check):
                        stderr=subprocess.DEVNULL)
         for pyf in list((bare / "richchk").rglob("*.py")):
             pyf.unlink()
+        (bare / "richchk" / "util" / "logs").mkdir(parents=True, exist_ok=True)
         variants["a sourceless (.pyc only) install"] = bare
         sample = [m for i, m in enumerate(mods) if i % 9 == 0 or "factory" in m or m.endswith(("chk_io", "richchk_io"))]
         for what, root in variants.items():
